@@ -109,7 +109,7 @@ def run(prog: Program, L: Ledger) -> None:
         raise AnalysisError("RestartObserver.__call__ not found")
     from ..normalize import flat as _flat
 
-    call = _flat(prog, call, ro)
+    call = _flat(prog, call, ro, keep=("to_dict", "from_dict", "close"), public_methods=True)
     wj = [c for c in calls_in(call.node) if prog.resolve_dotted(call.module, dotted(c.func) or "").endswith("jsonio.write_json")]
     jd = [c for c in calls_in(call.node) if prog.resolve_dotted(call.module, dotted(c.func) or "") in ("json.dumps", "json.dump")]
     if not wj and not jd:
